@@ -98,12 +98,50 @@ func randErr(rnd *rand.Rand, depth int) *ErrSpec {
 	return leaf(rnd)
 }
 
+// the errors every (carrier, configuration) pair beyond the first configuration is crossed
+// with: values the HEAD fallback keeps (403, 429), one it renames (404), one it drops (416),
+// a custom code with a detail under a status of its own, an uncoded error
+var configProbes = []*ErrSpec{
+	{Kind: "std", Std: "Denied"},
+	{Kind: "std", Std: "BlobUnknown"},
+	{Kind: "std", Std: "TooManyRequests"},
+	{Kind: "std", Std: "RangeInvalid"},
+	{Kind: "http", Status: 503, Inner: &ErrSpec{Kind: "wire", Code: "SOMECODE", Msg: "try later", Detail: `{"retry":3}`}},
+	{Kind: "plain", Msg: "plain failure"},
+}
+
+// carrierConfig is a carrier under a chain configuration in which its request sequence exists.
+type carrierConfig struct {
+	cr  *carrier
+	cfg string
+}
+
+func carrierConfigs() []carrierConfig {
+	var out []carrierConfig
+	for _, cfgName := range configs {
+		for i := range carriers {
+			if carriers[i].runsUnder(cfgName) {
+				out = append(out, carrierConfig{&carriers[i], cfgName})
+			}
+		}
+	}
+	return out
+}
+
 func generate(rn *runner, cfg *hx.Config) {
 	rnd := cfg.Rand()
-	// 1. every standard value through every carrier, 1..3 hops
-	for _, s := range stds {
-		for _, cr := range carriers {
-			rn.scenario(scenario{Err: &ErrSpec{Kind: "std", Std: s.Name}, Carrier: cr.Name, Hops: maxHops}, "std")
+	// 1. every standard value through every carrier, 1..3 hops, under the first configuration
+	//    the carrier runs under; the further (carrier, configuration) pairs with configProbes
+	for _, cc := range carrierConfigs() {
+		first := cc.cr.Only != "" || cc.cfg == configs[0]
+		if first {
+			for _, s := range stds {
+				rn.scenario(scenario{Err: &ErrSpec{Kind: "std", Std: s.Name}, Carrier: cc.cr.Name, Hops: maxHops, Config: cc.cfg}, "std")
+			}
+		} else {
+			for _, e := range configProbes {
+				rn.scenario(scenario{Err: e, Carrier: cc.cr.Name, Hops: maxHops, Config: cc.cfg}, "config-probe")
+			}
 		}
 	}
 	// 2. fixed probes: every wrapper status class over one body carrier, one HEAD carrier, one wrapped carrier
@@ -112,6 +150,12 @@ func generate(rn *runner, cfg *hx.Config) {
 			{Kind: "plain", Msg: "plain failure"}} {
 			for _, cn := range []string{"GetTag", "ResolveTag", "CommitCommit"} {
 				rn.scenario(scenario{Err: &ErrSpec{Kind: "http", Status: st, Inner: inner}, Carrier: cn, Hops: maxHops}, "status-probe")
+			}
+		}
+		// ... and over the carriers whose path mixes HEAD and body-carrying requests
+		for _, inner := range []*ErrSpec{nil, {Kind: "wire", Code: "SOMECODE", Msg: "foo", Detail: `{"a":1}`}} {
+			for _, cn := range []string{"GetTagLookup", "GetBlobResolve"} {
+				rn.scenario(scenario{Err: &ErrSpec{Kind: "http", Status: st, Inner: inner}, Carrier: cn, Hops: maxHops, Config: "quirks"}, "status-probe")
 			}
 		}
 	}
@@ -156,14 +200,15 @@ func generate(rn *runner, cfg *hx.Config) {
 			rn.scenario(scenario{Err: e, Carrier: cn, Hops: maxHops}, "body-limit")
 		}
 	}
-	// 5. seeded random error trees through random carriers
+	// 5. seeded random error trees through random carriers under random configurations
 	n := 300
 	if cfg.Thorough() {
 		n = 4000
 	}
+	ccs := carrierConfigs()
 	for i := 0; i < n; i++ {
 		e := randErr(rnd, rnd.Intn(4))
-		cr := carriers[rnd.Intn(len(carriers))]
-		rn.scenario(scenario{Err: e, Carrier: cr.Name, Hops: maxHops}, "random")
+		cc := ccs[rnd.Intn(len(ccs))]
+		rn.scenario(scenario{Err: e, Carrier: cc.cr.Name, Hops: maxHops, Config: cc.cfg}, "random")
 	}
 }
